@@ -170,9 +170,10 @@ def structSync (t : Sigs) (n : String) (p : Bool × Bool) : Bool :=
   | some d => isSync t (d.envAll p) d.self
   | none => false
 
-/-- the type mentions the arena type itself -/
+/-- the type mentions the arena type itself (a cycle of the table that never reaches `Bump`,
+e.g. `ChunkFooter.prev`, runs out of fuel and answers "no") -/
 def containsBump (t : Sigs) : Nat → Ty → Bool
-  | 0, _ => true
+  | 0, _ => false
   | f + 1, ty =>
     match ty with
     | .prim _ => false
@@ -195,7 +196,7 @@ def containsBump (t : Sigs) : Nat → Ty → Bool
 pointer or `NonNull` (owning the arena or holding it behind `&mut` is exclusive access and is
 fine to send).  Such a type being `Send` lets two threads reach one `Bump`. -/
 def sharesArena (t : Sigs) : Nat → Ty → Bool
-  | 0, _ => true
+  | 0, _ => false
   | f + 1, ty =>
     match ty with
     | .prim _ => false
